@@ -121,6 +121,34 @@ class _NNF(ast.NodeTransformer):
         return nnf(node) if isinstance(node.op, ast.Not) else node
 
 
+def _merge_isinstance(vals: list[ast.expr], is_or: bool) -> list[ast.expr]:
+    """`isinstance(x, A) or isinstance(x, B)` == `isinstance(x, (A, B))` (and the negated conjunction) for adjacent operands on
+    the same pure subject."""
+
+    def parts(v):
+        neg = isinstance(v, ast.UnaryOp) and isinstance(v.op, ast.Not)
+        c = v.operand if neg else v
+        if neg == is_or:  # Or merges positive tests, And merges negated ones
+            return None
+        if isinstance(c, ast.Call) and isinstance(c.func, ast.Name) and c.func.id == "isinstance" and len(c.args) == 2 and not c.keywords and _is_pure(c.args[0]):
+            cls = list(c.args[1].elts) if isinstance(c.args[1], ast.Tuple) else [c.args[1]]
+            if all(isinstance(k, (ast.Name, ast.Attribute)) for k in cls):
+                return ast.unparse(c.args[0]), c, cls
+        return None
+
+    out: list[ast.expr] = []
+    for v in vals:
+        p, q = parts(v), parts(out[-1]) if out else None
+        if p is not None and q is not None and p[0] == q[0]:
+            merged = ast.Call(func=ast.Name(id="isinstance", ctx=ast.Load()), args=[p[1].args[0], ast.Tuple(elts=q[2] + p[2], ctx=ast.Load())], keywords=[])
+            ast.copy_location(merged, q[1])
+            ast.fix_missing_locations(merged)
+            out[-1] = merged if is_or else ast.copy_location(ast.UnaryOp(op=ast.Not(), operand=merged), out[-1])
+        else:
+            out.append(v)
+    return out
+
+
 def simplify_test(e: ast.expr) -> ast.expr:
     """A test position only uses the truth value: double negations vanish and negations are pushed inward."""
     if isinstance(e, ast.BoolOp):
@@ -131,6 +159,9 @@ def simplify_test(e: ast.expr) -> ast.expr:
                 vals.extend(v.values)  # (a and b) and c == a and b and c
             else:
                 vals.append(v)
+        vals = _merge_isinstance(vals, isinstance(e.op, ast.Or))
+        if len(vals) == 1:
+            return vals[0]
         return ast.copy_location(ast.BoolOp(op=e.op, values=vals), e)
     if isinstance(e, ast.UnaryOp) and isinstance(e.op, ast.Not):
         inner = simplify_test(e.operand)
@@ -1506,7 +1537,22 @@ def canonical_names(fn: ast.AST, known: dict) -> int:
     cur_sig = [tuple(n) for _, n in scopes]
     k_sig = [tuple(n) for n in k_scopes]
     if cur_sig != k_sig:
-        al = _align([len(k) for k in k_sig], [len(c) for c in cur_sig]) if len(cur_sig) != len(k_sig) else {i: i for i in range(len(cur_sig))}
+        if len(cur_sig) == len(k_sig):
+            al = {i: i for i in range(len(cur_sig))}
+        else:
+            # scopes that already carry a known scope's names are that scope (in order); only the rest is aligned by arity
+            al, used = {}, set()
+            for j, c in enumerate(cur_sig):
+                for i, k in enumerate(k_sig):
+                    if i not in used and k == c and (not al or i > max(al.values())):
+                        al[j] = i
+                        used.add(i)
+                        break
+            rest_c = [j for j in range(len(cur_sig)) if j not in al]
+            rest_k = [i for i in range(len(k_sig)) if i not in used]
+            sub = _align([len(k_sig[i]) for i in rest_k], [len(cur_sig[j]) for j in rest_c])
+            for jj, ii in sub.items():
+                al[rest_c[jj]] = rest_k[ii]
         for j, i in al.items():
             node, names = scopes[j]
             want = list(k_sig[i])
@@ -1707,7 +1753,8 @@ def _name_tables(trees: dict[str, ast.Module]) -> dict:
                 for n in _own_nodes(fn):
                     if isinstance(n, ast.Attribute) and n.attr.startswith("_") and not n.attr.startswith("__"):
                         attr_use.setdefault(n.attr, []).append(f"{fn.name}/{'S' if isinstance(n.ctx, (ast.Store, ast.Del)) else 'L'}")
-    return {"classes": classes, "funcs": funcs, "attrs": {a: sorted(v) for a, v in attr_use.items()}}
+    consts = {mod: sorted({t.id for st in tree.body if isinstance(st, (ast.Assign, ast.AnnAssign)) for t in (st.targets if isinstance(st, ast.Assign) else [st.target]) if isinstance(t, ast.Name)}) for mod, tree in trees.items()}
+    return {"classes": classes, "funcs": funcs, "attrs": {a: sorted(v) for a, v in attr_use.items()}, "consts": consts}
 
 
 def _similar(a: ast.AST, b: ast.AST) -> float:
@@ -2062,12 +2109,81 @@ def snapshot(trees: dict[str, ast.Module]) -> dict:
     return {"functions": funcs, "call_styles": call_styles(trees), "name_tables": _name_tables(canon_trees), "bodies": bodies, "sources": sources}
 
 
+_TORCH_DTYPES = {"float32", "float64", "float16", "bfloat16", "float", "double", "half", "int8", "int16", "int32", "int64", "uint8", "long", "int", "short", "bool", "complex64", "complex128"}
+
+
+def _immutable_literal(e: ast.AST) -> bool:
+    if isinstance(e, ast.Constant):
+        return True
+    if isinstance(e, ast.UnaryOp) and isinstance(e.op, (ast.USub, ast.UAdd)) and isinstance(e.operand, ast.Constant) and isinstance(e.operand.value, (int, float)):
+        return True
+    if isinstance(e, ast.Tuple):
+        return all(_immutable_literal(x) for x in e.elts)
+    if isinstance(e, ast.Attribute) and isinstance(e.value, ast.Name) and e.value.id == "torch" and e.attr in _TORCH_DTYPES:
+        return True
+    return False
+
+
+def see_through_module_constants(trees: dict[str, ast.Module], known: dict) -> list[str]:
+    """C13: a module-level name the rule tables do not know (absent from the calibrated tree), bound exactly once at module
+    level to an immutable literal (number, string, None, tuple of those, a torch dtype) and never re-bound anywhere in its
+    module, is replaced by the literal at every read in that module — a named constant is the constant.  Names the tables know
+    (e.g. the state-dict keys) are kept: rules anchor on them."""
+    kc = known.get("name_tables", {}).get("consts")
+    if kc is None:
+        return []
+    out: list[str] = []
+    for mod, tree in trees.items():
+        known_here = set(kc.get(mod, ()))
+        cands: dict[str, ast.expr] = {}
+        counts: dict[str, int] = {}
+        for st in tree.body:
+            tgts = st.targets if isinstance(st, ast.Assign) else ([st.target] if isinstance(st, ast.AnnAssign) and st.value is not None else [])
+            for t in tgts:
+                for nm in [x.id for x in ast.walk(t) if isinstance(x, ast.Name)]:
+                    counts[nm] = counts.get(nm, 0) + 1
+            if len(tgts) == 1 and isinstance(tgts[0], ast.Name) and _immutable_literal(st.value):
+                cands[tgts[0].id] = st.value
+        cands = {k: v for k, v in cands.items() if counts.get(k) == 1 and k not in known_here}
+        if not cands:
+            continue
+        # any other binding of the name anywhere in the module (local, parameter, global statement, import, loop target) disqualifies it
+        rebound: set[str] = set()
+        module_level = {id(t) for st in tree.body if isinstance(st, (ast.Assign, ast.AnnAssign)) for t in (st.targets if isinstance(st, ast.Assign) else [st.target])}
+        for n in ast.walk(tree):
+            if isinstance(n, ast.Name) and isinstance(n.ctx, (ast.Store, ast.Del)) and n.id in cands:
+                if id(n) not in module_level:
+                    rebound.add(n.id)
+            elif isinstance(n, ast.arg) and n.arg in cands:
+                rebound.add(n.arg)
+            elif isinstance(n, (ast.Global, ast.Nonlocal)):
+                rebound.update(set(n.names) & set(cands))
+            elif isinstance(n, ast.alias) and (n.asname or n.name.split(".")[0]) in cands:
+                rebound.add(n.asname or n.name.split(".")[0])
+            elif isinstance(n, (ast.FunctionDef, ast.AsyncFunctionDef, ast.ClassDef)) and n.name in cands:
+                rebound.add(n.name)
+        cands = {k: v for k, v in cands.items() if k not in rebound}
+        if not cands:
+            continue
+
+        class T(ast.NodeTransformer):
+            def visit_Name(self, n: ast.Name):
+                if isinstance(n.ctx, ast.Load) and n.id in cands:
+                    return ast.copy_location(copy.deepcopy(cands[n.id]), n)
+                return n
+
+        trees[mod] = T().visit(tree)
+        out.extend(f"{mod}:{k}" for k in sorted(cands))
+    return out
+
+
 def canonicalize(trees: dict[str, ast.Module], known: dict | None) -> dict:
     """In-place canonicalisation of all module trees; returns a log of what was rewritten."""
     log = {"inlined_helpers": [], "propagated_locals": 0, "lambdas_from_defs": 0, "loops_to_comprehensions": 0, "renamed_binders": 0}
     for mod in list(trees):
         trees[mod] = local_canon(trees[mod])
     if known is not None:
+        log["module_constants"] = see_through_module_constants(trees, known)
         kf = known["functions"]
         # names first: a known private function that was merely renamed must not be mistaken for a new helper
         log["renamed_private"] = canonical_private_names(trees, known)
